@@ -1,11 +1,11 @@
-import MahfModel.Model.PopMachineWire
-open MahfModel MahfModel.PopMachine.Wire
+import MahfModel.Model.PopMachineC05
+open MahfModel MahfModel.PopMachine.WireC05
 
 def c05 (input implOut : Sexp) : Option Verdict :=
   match input with
-  | .list (.atom "api" :: _) => C05.api input implOut
-  | .list (.atom "run" :: _) => C05.run input implOut
-  | .list (.atom "comp" :: _) => C05.comp input implOut
+  | .list (.atom "api" :: _) => api input implOut
+  | .list (.atom "run" :: _) => run input implOut
+  | .list (.atom "comp" :: _) => comp input implOut
   | _ => none
 
 def main : IO Unit := driverMain (respond c05)
